@@ -132,3 +132,36 @@ func GenLateOps(t *rapid.T) []Op {
 	}
 	return ops
 }
+
+// GenCollectorScenario draws a fragment in which the collector has something to remove while
+// transactions are open: versions pile up, an old transaction ends, a younger one stays open.
+func GenCollectorScenario(t *rapid.T) []Op {
+	var ops []Op
+	key := rapid.IntRange(0, 2).Draw(t, "gcKey")
+	w := func() Op {
+		if rapid.IntRange(0, 5).Draw(t, "gcDel") == 0 {
+			return Op{K: "del", Key: key}
+		}
+		return Op{K: "set", Key: key, Len: rapid.IntRange(0, 12).Draw(t, "gcLen")}
+	}
+	for n := rapid.IntRange(1, 3).Draw(t, "gcPre"); n > 0; n-- {
+		ops = append(ops, w())
+	}
+	ops = append(ops, Op{K: "begin", Lvl: rapid.IntRange(0, 3).Draw(t, "gcLvl1")})
+	for n := rapid.IntRange(1, 3).Draw(t, "gcMid"); n > 0; n-- {
+		ops = append(ops, w())
+	}
+	ops = append(ops, Op{K: "begin", Lvl: rapid.SampledFrom([]int{2, 3, 2, 1}).Draw(t, "gcLvl2")})
+	for n := rapid.IntRange(0, 2).Draw(t, "gcPost"); n > 0; n-- {
+		ops = append(ops, w())
+	}
+	if rapid.Bool().Draw(t, "gcEarly") {
+		ops = append(ops, Op{K: "gc"}) // nothing past the older transaction may go
+	}
+	// the older of the two ends: H=1 addresses the first open transaction
+	ops = append(ops, Op{K: rapid.SampledFrom([]string{"commit", "rollback"}).Draw(t, "gcEnd"), H: 1}, Op{K: "gc"})
+	for n := rapid.IntRange(0, 2).Draw(t, "gcTail"); n > 0; n-- {
+		ops = append(ops, w(), Op{K: "gc"})
+	}
+	return ops
+}
